@@ -25,6 +25,11 @@ arguments separated by `|`.  All tensors are `arange` tensors; replies list valu
   summll v1 v2 …         SumMarginalLogLikelihood of member values (exact rationals)
   summllt s | v.. ; v..  the GENERATED SumMarginalLogLikelihood reduction on batched member values
   rq dist | alpha | diag the GENERATED RQKernel alpha alignment (pairs)
+  norm w | target        the GENERATED normaliser (w = 0: LeaveOneOutPseudoLikelihood, 1: ExactMarginalLogLikelihood) for a
+                         target of the given shape, and for the replica's target `(n,)`
+  fillmask site | s | bits   the GENERATED 'fill' mask (site 0..3) on labels of shape s whose NaN pattern is `bits`
+  mlhist k | events      the GENERATED IndependentModelList properties over a history (0 = read train_inputs,
+                         1 = read train_targets, 100 + 10*i + m = models[i].set_train_data with m = 1 targets, 2 inputs, 3 both)
   (scale, scalediag, lsdiv, noise, mean, sumlast run the GENERATED op lists of Gen/BatchChoreo.lean)
 -/
 
@@ -40,6 +45,16 @@ def showPairs (t : T (Nat × Nat)) : String :=
   s!"shape={showNats (toTorch t.shape)};a={showNats (t.toFlat.map (·.1))};b={showNats (t.toFlat.map (·.2))}"
 
 def ar (s : List Nat) : T Nat := T.arange (ofTorch s)
+
+def mlEvents (k : Nat) (codes : List Nat) : List (MLEvent Nat) :=
+  (List.zip codes (List.range codes.length)).map fun (c, j) =>
+    if c = 0 then MLEvent.read .trainInputs
+    else if c = 1 then MLEvent.read .trainTargets
+    else
+      let i := ((c - 100) / 10) % (max k 1)
+      let m := (c - 100) % 10
+      let v := i * 1000 + j + 1
+      MLEvent.setData i (if m = 2 ∨ m = 3 then some v else none) (if m = 1 ∨ m = 3 then some v else none)
 
 def step (line : String) : String :=
   let line := line.trimAscii.toString
@@ -114,6 +129,27 @@ def step (line : String) : String :=
       match runParam Gen.BatchChoreo.constantMeanOps (ar c) [ofTorch xn] [] with | some r => showT r | none => "none"
     | "expandin", [some x, some bs] =>
       if x.length ≥ 2 ∧ (bcastR ((ofTorch x).drop 2) (ofTorch bs) = some (ofTorch bs)) then showT (expandInputs (ar x) (ofTorch bs)) else "none"
+    | "norm", [some [w], some tgt] =>
+      let e := if w = 0 then Gen.BatchChoreo.looNormaliser else Gen.BatchChoreo.exactNormaliser
+      let n := (ofTorch tgt).headD 1
+      s!"n={e.eval (ofTorch tgt) [n]};r={e.eval [n] [n]}"
+    | "fillmask", [some [site], some shape, some bits] =>
+      let m := match site with
+        | 0 => Gen.BatchChoreo.meanCacheFillMask
+        | 1 => Gen.BatchChoreo.covarFillMask
+        | 2 => Gen.BatchChoreo.elpFillMask
+        | _ => Gen.BatchChoreo.logMarginalFillMask
+      let rs := ofTorch shape
+      let arr := bits.toArray
+      let labels : T Bool := ⟨rs, fun idx => arr[flat rs idx]! != 0⟩
+      s!"flat={showNats ((allIdx rs).map fun idx => if m.observedAt labels idx then 1 else 0)}"
+    | "mlhist", [some [k], some codes] =>
+      let st : MLState Nat := ⟨(List.range k).map fun i => (i * 1000, i * 1000), none, none⟩
+      let h := mlEvents k codes
+      let pI := Gen.BatchChoreo.modelListTrainInputs
+      let pT := Gen.BatchChoreo.modelListTrainTargets
+      let reads := (runHist pI pT st h).2
+      s!"r={"/".intercalate (reads.map showNats)};fi={showNats (readAfter pI pT st h .trainInputs)};ft={showNats (readAfter pI pT st h .trainTargets)}"
     | "replica", [some pb, some db] =>
       match replicaTable (ofTorch pb) (ofTorch db) with
       | some (bs, l) => s!"shape={showNats (toTorch bs)};p={showNats (l.map (·.1))};d={showNats (l.map (·.2))}"
